@@ -38,13 +38,23 @@ META = {
                   'mixins; derived by the model from the MRO given as data), auto_props_ignore_cfg / report_class_props / class_props_cfg_independent (Module.__init__ applies the '
                   'configuration first and assigns implementation / interface_classes / features afterwards: for EVERY configuration the report states the interface class, '
                   'features and implementation of the implementing class), cfg_prop_applied (all other declared module properties follow the configuration), table fact module_decls_auto, '
-                  'finish_constRO / constRO_of_finish (readonly / constant of a parameter derived from class + configuration + Parameter.finish: a constant parameter is read-only by construction).  '
-                  'Tied to secnode.py / params.py / modulebase.py / properties.py / dispatcher.py by correspondence runs (model report = real report, the module property lists DERIVED from '
-                  'class + configuration; model step = real step for every request of the sweep) and report-vs-behaviour monitors on generated nodes and on the shipped configurations.',
+                  'finish_constRO / constRO_of_finish (readonly / constant of a parameter derived from class + configuration + Parameter.finish: a constant parameter is read-only by construction), '
+                  'change_refused_of_datatype + model_change_probe_ok with the new clause (a payload the described datainfo of a writable parameter excludes is refused and nothing is written), '
+                  'and, for parameters whose datatype is a tree of the datatype model (Node/DescribeDT: ONE tree gives the datainfo of the report and the validation of requests; the instance '
+                  'datatype = copy of the class datatype + the limits of the configuration): derived_datainfo_equiv_partial (AcceptLaw PROVED from C03 rebuild_equiv for every well-formed tree with on-grid '
+                  'scaled limits: the client rebuilt from the exported datainfo answers every payload as the node does), cfg_limit_stored / instance_limit_from_cfg (a configured limit is stored as given), '
+                  'configured_scaled_described (a scaled limit set by the configuration on the grid: the integer the report states denotes exactly that limit, whichever side of the whole number the float '
+                  'quotient limit/scale lands on, and client = node on every payload), described_datainfo_equiv_derived + model_change_probe_ok_derived (node level, no oracle assumption), '
+                  'derived_datainfo_equiv_fails (counterexample for off-grid configured limits: recorded finding).  '
+                  'Tied to secnode.py / params.py / modulebase.py / properties.py / dispatcher.py / datatypes.py by correspondence runs (model report = real report, the module property lists DERIVED from '
+                  'class + configuration; model step = real step for every request of the sweep; datatype stream: instance datatype DERIVED from class datatype + configured limits, described datainfo DERIVED from the '
+                  'instance datatype, verdicts of node datatype and rebuilt client datatype on the boundary catalogue DERIVED by the model) and report-vs-behaviour monitors on generated nodes and on the shipped configurations '
+                  '(boundary catalogue of every described datainfo sent as change requests and judged against the client datatype rebuilt from the report).',
     'level_note': 'Trusted: Lean kernel + axioms; the order test of a LimitsType pair is classified with the limit checks (not '
                   'expressible in the described tuple datainfo); the datatype layer is an oracle (C01-C03): emits_importable, '
                   'described_datainfo_equiv and command_datainfo_equiv are proved relative to explicit oracle laws (about the datatypes of the node) and the corresponding facts are tested '
-                  'on the implementation with the real client datatypes; property lists of ACCESSIBLES (description, group, visibility) are data taken from the real objects, '
+                  'on the implementation with the real client datatypes (for described_datainfo_equiv the law is discharged for the model datatypes under LawfulFloatOps / CompatLaws of the float carrier, proved for Rat, '
+                  'assumed for binary64); recorded finding: a scaled limit the configuration puts off the grid (node and described datainfo differ on the payload one step outside the described range); property lists of ACCESSIBLES (description, group, visibility) are data taken from the real objects, '
                   'those of MODULES are derived by the model from the declared properties of the class, class-level values and the configuration; strict JSON: the wire text of the '
                   'real report must parse with Lean\'s JSON parser (the model has no serialiser).',
     'trusted': [
@@ -55,12 +65,15 @@ META = {
         'shipped configurations: driver calls are not observed there (only replies and subscriptions); they are probed only after the generated nodes showed no violation',
     ],
     'modelled_not_verified': [
+        'configuration keys of a datatype other than min / max (unit, fmtstr, resolutions, lengths): generated and judged by the monitors, but they reach the model through the tree read from the real object',
+        'datatype stream: LimitsType / StatusType / TextType parameters are left out (not one of the ten kinds of the datatype model)',
         'the MRO itself (Python C3 linearisation) and the qualified class name are data from the real class',
         'validation of a configured property value by the property\'s datatype (a refused value produces no node)',
         'main-unit substitution ($) — the datainfo is taken after configuration',
         'json.dumps of the report (the text the real node produces is parsed in Lean; the model does not serialise)',
     ],
-    'assumptions': ['Node.WF: distinct module names, distinct wire names per module, predefined names used for their kind',
+    'assumptions': ['derived_datainfo_equiv_partial / configured_scaled_described: LawfulFloatOps + CompatLaws of the float carrier (C03), scaled limits on the grid (Exportable)',
+                    'Node.WF: distinct module names, distinct wire names per module, predefined names used for their kind',
                     'model_change_probe_ok: NoForeignReadOnly (datatypes, hooks and drivers do not use the error class ReadOnly for their own refusals)',
                     'report_class_props: AutoDecls (the class declares implementation / interface_classes / features as exported properties under these names; '
                     'proved for frappy\'s Module from the generated table)'],
@@ -970,6 +983,12 @@ def evaluate(ctx, res, label, case, data, model, judge, dtmodel=None):
             res.count('cfg.module-property.' + row[0])
     for key in data.get('cfgstats', []):
         res.count(key)
+    for d in data['dichecks']:
+        res.count('datainfo-check.client-%s.node-%s' % ('accepts' if d['client'] else 'rejects', 'accepts' if d['node'] else 'rejects'))
+    for st in rec['steps']:
+        if st['req'][0] == 'change' and st.get('client') is not None:
+            res.count('change.client-%s.%s' % ('accepts' if st['client'] else 'rejects',
+                                               'refused' if st['obs']['reply'][0] == 'error' else 'taken'))
     ro = sum(1 for m in data['report1'] for a in m['accs'] if a['readonly'] is True)
     const = sum(1 for m in data['report1'] for a in m['accs'] if a['constant'] is not None)
     res.count('described.readonly', ro)
@@ -1030,11 +1049,14 @@ def evaluate(ctx, res, label, case, data, model, judge, dtmodel=None):
 def run(ctx):
     res = Result()
     res.rule = ('one evaluation = one node (generated classes + configuration incl. entries for module properties - also the automatic ones - '
-                'and for constant / range of parameters): describe twice around a sweep of change/read/do/activate requests over every '
+                'and for constant / datatype properties of parameters: limits of int / double / scaled - scaled limits on the grid by quotient class and off the grid -, '
+                'lengths, unit, resolution): describe twice around a sweep of change/read/do/activate requests over every '
                 'described and every undescribed name (attribute names, underscore variants, old names of renamed '
                 'accessibles, accessibles of unexported modules, unknown modules; do with no payload, empty JSON values, junk, valid and boundary arguments), '
                 'client datatypes rebuilt from the report '
-                'against the node on generated payloads, emitted values against the described datainfo; non-trivial = the '
+                'against the node on generated payloads and on the boundary catalogue of every described datainfo (at / next to every limit, wrong lengths and arities; '
+                'also sent as change requests), emitted values against the described datainfo; datatype stream: class datatype + configured limits -> instance datatype '
+                '-> described datainfo -> verdicts, derived by the model; non-trivial = the '
                 'node has described, undescribed and read-only accessibles')
     big = ctx.tier == 'thorough' or ctx.escalated
     rng = ctx.rng
